@@ -5,7 +5,7 @@
 From Coq Require Import ZArith Bool List String.
 From EV Require Import Base.Arith Gen.Dispatch Gen.SvGuards Model.DispatchModel Model.Accepts Proofs.AcceptsProofs.
 
-(* Whole finite feature domain (every value of `feat`, 10752 per backend): if the closed boolean
+(* Whole finite feature domain (every value of `feat`, 12288 per backend): if the closed boolean
    table check holds for backend b then every accepted feature combination is supported.  ./check
    discharges the premise with the Coq VM on the model generated from the current source and proves
    the unconditional `forall f, accepts b f = true -> supported b f = true` (obligations
